@@ -9,10 +9,13 @@ import (
 	"bytes"
 	"context"
 	"crypto/ed25519"
+	"crypto/hmac"
+	"crypto/sha512"
 	"encoding/binary"
 	"fmt"
 	"math/big"
 	"sort"
+	"strings"
 	"time"
 
 	"github.com/tonkeeper/tongo/boc"
@@ -49,7 +52,15 @@ func execC15Addr(in sx.V) sx.V {
 	pk := ed25519.PublicKey(l[1].Bytes)
 	o := woptsFromSx(l[2])
 	var r1 sx.V
-	if len(l[3].Bytes) == 32 {
+	if len(l) >= 5 {
+		// (mnemonic version-byte): the library derives the key itself
+		w, err := wallet.DefaultWalletFromSeed(string(l[4].List[0].Bytes), &fakeChain{})
+		if err != nil {
+			r1 = sx.A("err")
+		} else {
+			r1 = addrSx(w.GetAddress(), nil)
+		}
+	} else if len(l[3].Bytes) == 32 {
 		w, err := wallet.New(ed25519.NewKeyFromSeed(l[3].Bytes), ver, &fakeChain{}, o.options()...)
 		if err != nil {
 			r1 = sx.A("err")
@@ -296,6 +307,10 @@ func execC15Send(in sx.V) sx.V {
 		}
 	} else if len(chain.payloads) > 1 {
 		return sx.L(sx.A("harness-error"), sx.A("sent-twice"))
+	}
+	// with a sleep of wait/10 between polls at most ten polls fit before the deadline (C15_confirm_ten_polls)
+	if chain.npolls > 10 {
+		return sx.L(sx.A("harness-error"), sx.A("more-than-ten-polls"))
 	}
 	// every question to the chain is about the wallet itself
 	for _, a := range chain.asked {
@@ -556,22 +571,33 @@ func genC15(c *Ctx) {
 			}
 		}
 	}
-	// mnemonic -> key -> address (seed.go is an oracle: only "the derived key is the key of the address")
+	// mnemonic -> key -> address: the key is derived by an independent implementation of the TON derivation and handed
+	// to the model; the model decides acceptance (>= 12 words, version byte 0) and builds the v4r2 address
 	for i, mn := range c15Mnemonics {
 		if i > 0 && !c.Thorough() {
 			break
 		}
-		priv, err := wallet.SeedToPrivateKey(mn)
-		if err != nil {
-			c.Fail("c15.addr", sx.Str(mn), "c15-mnemonic", "a valid mnemonic is rejected")
-			continue
+		emitMnemonic(c, mn, "24-valid", true)
+	}
+	emitMnemonic(c, validPhrase(r, 12), "12-valid", true)
+	emitMnemonic(c, validPhrase(r, 11), "11-version-ok", false)
+	for { // 11 words and a trailing space: strings.Split counts 12 parts, so it is accepted when the version byte is 0
+		p := randPhrase(r, 11) + " "
+		if tonVersionByte(p) == 0 {
+			emitMnemonic(c, p, "11-trailing-space", true)
+			break
 		}
-		pk := priv.Public().(ed25519.PublicKey)
-		in := sx.L(sx.Nat(int(wallet.V4R2)), sx.Bytes(pk), wopts{}.sx(), sx.Bytes(priv.Seed()))
-		out := c.Emit("c15.addr", in, "addr|mnemonic")
-		w, err := wallet.DefaultWalletFromSeed(mn, &fakeChain{})
-		if err != nil || out.K != sx.KL || addrSx(w.GetAddress(), nil).String() != out.List[1].String() {
-			c.Fail("c15.addr", in, "c15-mnemonic", "DefaultWalletFromSeed does not yield the v4r2 address of the derived key")
+	}
+	p24 := randPhrase(r, 24)
+	emitMnemonic(c, p24, "24-random", tonVersionByte(p24) == 0)
+	emitMnemonic(c, "", "empty", false)
+	emitMnemonic(c, randPhrase(r, 5)+"  "+randPhrase(r, 5), "double-space-11", false)
+	if c.Thorough() {
+		emitMnemonic(c, validPhrase(r, 13), "13-valid", true)
+		emitMnemonic(c, validPhrase(r, 24), "24-valid-searched", true)
+		for k := 0; k < 6; k++ {
+			p := randPhrase(r, 12+r.Intn(14))
+			emitMnemonic(c, p, "random", tonVersionByte(p) == 0)
 		}
 	}
 	// keys of other lengths through the Generate* functions (publicKeyToBits copies)
@@ -796,6 +822,81 @@ func genC15(c *Ctx) {
 				}
 			}
 		}
+	}
+}
+
+// TON mnemonic -> key, written from the specification (HMAC-SHA512 of the phrase with an empty message as the
+// entropy; PBKDF2-HMAC-SHA512 with salt "TON seed version", floor(100000/256) iterations, first byte must be 0;
+// PBKDF2 with salt "TON default seed", 100000 iterations, 32 bytes = Ed25519 seed), independent of wallet/seed.go
+// and of x/crypto/pbkdf2
+func pbkdf2Sha512Block1(password, salt []byte, iter int) []byte {
+	mac := hmac.New(sha512.New, password)
+	mac.Write(salt)
+	mac.Write([]byte{0, 0, 0, 1})
+	u := mac.Sum(nil)
+	t := append([]byte{}, u...)
+	for i := 1; i < iter; i++ {
+		mac.Reset()
+		mac.Write(u)
+		u = mac.Sum(nil)
+		for j := range t {
+			t[j] ^= u[j]
+		}
+	}
+	return t
+}
+
+func tonEntropy(mnemonic string) []byte {
+	mac := hmac.New(sha512.New, []byte(mnemonic))
+	return mac.Sum(nil)
+}
+
+func tonVersionByte(mnemonic string) byte {
+	return pbkdf2Sha512Block1(tonEntropy(mnemonic), []byte("TON seed version"), 100000/256)[0]
+}
+
+func tonSeed(mnemonic string) []byte {
+	return pbkdf2Sha512Block1(tonEntropy(mnemonic), []byte("TON default seed"), 100000)[:32]
+}
+
+var c15Words = []string{"abandon", "ability", "able", "about", "above", "absent", "absorb", "abstract", "zoo", "zone", "zero", "youth",
+	"wolf", "window", "velvet", "uncle", "table", "quantum", "ocean", "lemon", "kitten", "jungle", "ivory", "harvest", "x", "Word", "ÿ"}
+
+func randPhrase(r *prng.R, n int) string {
+	ws := make([]string, n)
+	for i := range ws {
+		ws[i] = c15Words[r.Intn(len(c15Words))]
+	}
+	return strings.Join(ws, " ")
+}
+
+// a phrase of n words whose version byte is 0 (about 256 tries)
+func validPhrase(r *prng.R, n int) string {
+	for {
+		p := randPhrase(r, n)
+		if tonVersionByte(p) == 0 {
+			return p
+		}
+	}
+}
+
+func emitMnemonic(c *Ctx, mn, family string, wantOK bool) {
+	seed := tonSeed(mn)
+	pk := ed25519.NewKeyFromSeed(seed).Public().(ed25519.PublicKey)
+	in := sx.L(sx.Nat(int(wallet.V4R2)), sx.Bytes(pk), wopts{}.sx(), sx.Bytes(seed), sx.L(sx.Str(mn), sx.N(uint64(tonVersionByte(mn)))))
+	out := c.Emit("c15.addr", in, "addr|mnemonic|"+family)
+	if out.K != sx.KL {
+		return
+	}
+	gotOK := out.List[0].K == sx.KL
+	if gotOK != wantOK {
+		c.Fail("c15.addr", in, "c15-mnemonic", fmt.Sprintf("mnemonic (%s) accepted=%v, expected %v", family, gotOK, wantOK))
+	}
+	if gotOK && out.List[0].String() != out.List[1].String() {
+		c.Fail("c15.addr", in, "c15-mnemonic", "the wallet of a mnemonic is not the v4r2 wallet of the key the specification derives from it")
+	}
+	if priv, err := wallet.SeedToPrivateKey(mn); (err == nil) != wantOK || (err == nil && !bytes.Equal(priv.Seed(), seed)) {
+		c.Fail("c15.addr", in, "c15-mnemonic", "SeedToPrivateKey disagrees with the specified derivation")
 	}
 }
 
